@@ -25,19 +25,31 @@
 long g_live;                 /* funnel blocks currently live */
 unsigned g_alloc_failed;     /* number of funnel allocations that returned NULL */
 
-/* The case split on small sizes / counts is the identity (each branch calls malloc/calloc with exactly the arguments
- * given); it only keeps the objects of constant size for CBMC (objects of symbolic size cost millions of variables). */
+/* CLOSED case split on the block sizes / element counts a harness can ask for: each branch calls malloc / calloc with
+ * exactly the arguments given (identity), and the fall-through branch is a CHECKED assertion, so the split is
+ * exhaustive on every path or the job fails.  Reason: one allocation of symbolic size - even on an infeasible
+ * branch - costs CBMC millions of variables (4.6 M vs 0.3 M measured).  A harness may override the lists. */
+#ifndef OOM2_MALLOC_SIZES
+#define OOM2_MALLOC_SIZES X(1) X(2) X(3) X(4) X(21) X(24) X(96)   /* strings <= 3 chars, KSI_CERT_EMAIL, listImpl_st, KSI_List_st */
+#endif
+#ifndef OOM2_CALLOC_COUNTS
+#define OOM2_CALLOC_COUNTS X(1) X(2) X(3) X(4) X(10)               /* constraint arrays, short strings, first list array */
+#endif
 static void *oom2_acct_malloc(size_t size) {
 	void *p;
-	if (size == 1) p = (malloc)(1); else if (size == 2) p = (malloc)(2); else if (size == 3) p = (malloc)(3); else if (size == 4) p = (malloc)(4);
-	else p = (malloc)(size);
+#define X(k) if (size == (k)) p = (malloc)(k); else
+	OOM2_MALLOC_SIZES
+#undef X
+	{ __CPROVER_assert(0, "env: malloc size outside the closed case split of env/c19_oom2_base.h"); p = NULL; }
 	if (p != NULL) g_live++; else g_alloc_failed++;
 	return p;
 }
 static void *oom2_acct_calloc(size_t num, size_t size) {
 	void *p;
-	if (num == 1) p = (calloc)(1, size); else if (num == 2) p = (calloc)(2, size); else if (num == 3) p = (calloc)(3, size); else if (num == 4) p = (calloc)(4, size);
-	else p = (calloc)(num, size);
+#define X(k) if (num == (k)) p = (calloc)((k), size); else
+	OOM2_CALLOC_COUNTS
+#undef X
+	{ __CPROVER_assert(0, "env: calloc count outside the closed case split of env/c19_oom2_base.h"); p = NULL; }
 	if (p != NULL) g_live++; else g_alloc_failed++;
 	return p;
 }
